@@ -407,7 +407,8 @@ def main():
                 failed.update(k['failed'])
             except Undecided as e:
                 undecided.append('kani layer: %s' % e)
-        irows, ifailed = table.inventory_rows(pid, repo, res)
+        irows, ifailed, iund = table.inventory_rows(pid, repo, res)
+        undecided += list(iund)
         rows.update(irows); failed.update(ifailed)
         mine = {r: v for r, v in rows.items() if pid in v.get('serves', [])}
         if not mine:
